@@ -1,11 +1,12 @@
 #!/bin/bash
 # usage: seed_eval.sh <seed-id> <worktree> <property> [more properties...]
 # 1) confirms the seeded change in its scratch worktree (demo fails with it, passes without; test suite unchanged)
+# (the seed's own demonstration is kept out of the scenario library until the evaluation is over)
 # 2) applies it to /repo, runs the registered quick checks of the named properties, and undoes it straight afterwards
 ID=$1; WT=$2; shift 2
 D=/verif/seeded/$ID
 mkdir -p $D
-cp $WT/_seed/patch.diff $D/patch.diff; cp $WT/_seed/demo.py $D/demo.py; cp $WT/_seed/notes.md $D/notes.md 2>/dev/null
+cp $WT/_seed/patch.diff $D/patch.diff; cp $WT/_seed/demo.py $D/demo.py.pending; rm -f $D/demo.py; cp $WT/_seed/notes.md $D/notes.md 2>/dev/null
 cd $WT
 # the worktree is rebuilt from the recorded patch (git stash is shared between worktrees, so it is not used here)
 git checkout -q -- . ; if ! git apply _seed/patch.diff; then echo "PATCH DOES NOT APPLY IN ITS OWN WORKTREE"; exit 8; fi
@@ -26,4 +27,7 @@ for P in "$@"; do
   echo "check $P exit=$RC: $(echo "$OUT" | grep -E "VIOLATION" | head -3 | tr '\n' ' ')" >> $D/confirm.txt
 done
 git -C /repo checkout -- .
+# the demonstration joins the scenario library only after the evaluation (no catch by its own scenario)
+mv $D/demo.py.pending $D/demo.py
+cp $WT/_seed/side_observation.py $D/side_observation.py 2>/dev/null
 git -C /repo status --short | head -3
